@@ -1,19 +1,15 @@
 /-
-M.Slab — the `slab` crate (0.4.9) as used by crux: `insert` takes the head of the LIFO free list
-(or appends), `remove` pushes the freed key on the free list, `clear` forgets everything.
-Keys are observable (bridge effect ids; task ids reused by stale wake-ups), so the model is exact.
+M.Slab — the `slab` crate (0.4.9) as used by crux, observationally: `insert` reuses the most recently
+freed key (LIFO free list) or else appends; `remove` frees the key; `clear` forgets everything.
+The crate threads its free list through the vacant entries; here it is an explicit stack, which gives
+the same keys (keys are observable: bridge effect ids, task ids reused by stale wake-ups — the
+correspondence check compares them exactly).
 -/
 namespace M
 
-inductive SlabEntry (α : Type) where
-  | vacant (next : Nat)
-  | occupied (a : α)
-deriving Repr
-
 structure Slab (α : Type) where
-  entries : List (SlabEntry α) := []
-  next : Nat := 0
-  len : Nat := 0
+  entries : List (Option α) := []
+  free : List Nat := []
 deriving Repr
 
 namespace Slab
@@ -21,47 +17,38 @@ variable {α : Type}
 
 def empty : Slab α := {}
 
-def get? (s : Slab α) (k : Nat) : Option α :=
-  match s.entries[k]? with
-  | some (.occupied a) => some a
-  | _ => none
+def get? (s : Slab α) (k : Nat) : Option α := (s.entries[k]?).join
 
 def contains (s : Slab α) (k : Nat) : Bool := (s.get? k).isSome
 
-/-- slab-0.4.9 `insert_at`: returns the key used -/
+/-- returns the key used -/
 def insert (s : Slab α) (a : α) : Nat × Slab α :=
-  let key := s.next
-  if key = s.entries.length then
-    (key, { entries := s.entries ++ [.occupied a], next := key + 1, len := s.len + 1 })
-  else
-    let nxt := match s.entries[key]? with
-      | some (.vacant n) => n
-      | _ => s.entries.length  -- unreachable on well-formed slabs
-    (key, { entries := s.entries.set key (.occupied a), next := nxt, len := s.len + 1 })
+  match s.free with
+  | k :: rest => (k, { entries := s.entries.set k (some a), free := rest })
+  | [] => (s.entries.length, { entries := s.entries ++ [some a], free := [] })
 
 /-- `try_remove`: `none` if the slot is not occupied -/
 def remove (s : Slab α) (k : Nat) : Option α × Slab α :=
-  match s.entries[k]? with
-  | some (.occupied a) =>
-    (some a, { entries := s.entries.set k (.vacant s.next), next := k, len := s.len - 1 })
-  | _ => (none, s)
+  match s.get? k with
+  | some a => (some a, { entries := s.entries.set k none, free := k :: s.free })
+  | none => (none, s)
 
 def set (s : Slab α) (k : Nat) (a : α) : Slab α :=
-  match s.entries[k]? with
-  | some (.occupied _) => { s with entries := s.entries.set k (.occupied a) }
-  | _ => s
+  match s.get? k with
+  | some _ => { s with entries := s.entries.set k (some a) }
+  | none => s
 
 def clear (_ : Slab α) : Slab α := {}
 
-def isEmpty (s : Slab α) : Bool := s.len == 0
-
 /-- occupied entries with their keys, in key order -/
 def toList (s : Slab α) : List (Nat × α) :=
-  (s.entries.zipIdx).filterMap fun (e, i) => match e with
-    | .occupied a => some (i, a)
-    | .vacant _ => none
+  (s.entries.zipIdx).filterMap fun (e, i) => e.map fun a => (i, a)
 
-def values (s : Slab α) : List α := s.toList.map (·.2)
+def values (s : Slab α) : List α := s.entries.filterMap id
+
+def len (s : Slab α) : Nat := s.values.length
+
+def isEmpty (s : Slab α) : Bool := s.len == 0
 
 end Slab
 end M
